@@ -209,7 +209,7 @@ Definition tstep (s : shared) (t : thread) (e : ev) : option (shared * thread * 
   | KPersist l, P_have, EIO true =>                                              (* saved and enqueued *)
       if (if l then qclosed2 s else qclosed1 s) then Some (panic s, setpc t P_release, [])
       else Some (s, setpc t P_wsem, [])
-  | KPersist l, P_have, EDefault => Some (s, setpc t P_release, [])               (* backlog: no write *)
+  | KPersist l, P_wsem, EDefault => Some (s, setpc t P_release, [])               (* backlog: no write now *)
   | KPersist l, P_wsem, ERecvW true v => stay (recv_w s true v) (P_hold v)
   | KPersist l, P_wsem, ERecvW false v => stay (recv_w s false v) P_release
   | KPersist l, P_hold WvDown, ESendW WvDown => stay (send_w s WvDown) P_release
